@@ -197,6 +197,18 @@ def run(ck, prog, ctx):
                         if kind == "assign" and d.rv["k"] == "ref" and d.rv["mut"] and any(e != "*" and e[0] == "f" and e[1] == "all_parents" and e[2] == TI for e in d.rv["place"].fields()):
                             if ms.call_mutates(t.callee, t.args.index(a)):
                                 cache_writers.add(b.id)
+    _reach_w = {}
+
+    def to_writer(t):
+        r = t.callee.res
+        if not r or r not in prog.bodies:
+            return False
+        if r in cache_writers:
+            return True
+        if r not in _reach_w:
+            tb = prog.bodies[r]
+            _reach_w[r] = tb.kind in ("Fn", "AssocFn") and not (tb.exported or tb.reachable or tb.impl_trait) and bool(prog.reachable_bodies([r]) & cache_writers)
+        return _reach_w[r]
     ck.ob("PHASE", "cache-writers", bool(cache_writers), "writers of HpoTermInternal.all_parents: %s" % sorted(x.rsplit("::", 1)[-1] for x in cache_writers))
     if cat is not None and cache_writers:
         cg = prog.callgraph
@@ -225,7 +237,7 @@ def run(ck, prog, ctx):
         ck.ob("PHASE", "transition", bool(okt), "the AllTerms -> ConnectedTerms transition is performed by %s" % sorted({b.short for b, _ in trans}), where=cat.where())
 
     if cat is not None:
-        check_required_steps(ck, "PHASE", prog, cat, [("build the cache of every term", lambda t: t.callee.res in cache_writers or (t.callee.res or "").endswith("::all_grandparents"))])
+        check_required_steps(ck, "PHASE", prog, cat, [("build the cache of every term", lambda t: to_writer(t))])
     if cat is not None:
         # the set of terms the cache pass visits: an Arena accessor that leaves out exactly the placeholder slot, iterated completely
         dflt = prog.body("<ontology::termarena::Arena as std::default::Default>::default")
@@ -241,7 +253,7 @@ def run(ck, prog, ctx):
                 ck.ob("PHASE", "connect/visits-all/" + a, k == n_ph, "connect_all_terms enumerates the terms with Arena::%s, which leaves out %d leading slot(s) of `terms` (the arena reserves %d placeholder): %s" % (a, k, n_ph, "every term gets its ancestor cache" if k == n_ph else "the first real term(s) never get an ancestor cache"), where=cat.where())
         fl = for_loops(cat)
         for i, lp in enumerate(fl):
-            steps = {bi for bi, t in cat.calls() if bi in lp["blocks"] and (t.callee.res in cache_writers or (t.callee.res or "").endswith("::all_grandparents"))}
+            steps = {bi for bi, t in cat.calls() if bi in lp["blocks"] and to_writer(t)}
             if steps:
                 check_every_element(ck, "PHASE", "connect/loop/%d" % i, cat, lp, steps, "build the ancestor cache", "the terms of the arena")
         hard = hard_truncations(prog, cat)
@@ -249,7 +261,7 @@ def run(ck, prog, ctx):
     for wid in sorted(cache_writers):
         wb_ = prog.bodies[wid]
         if wb_.kind in ("Fn", "AssocFn") and wb_.impl_self and wb_.impl_self.get("adt") == "ontology::builder::Builder":
-            check_required_steps(ck, "ROLE", prog, wb_, [("write the cache", lambda t: any(t.callee.res == a.id for a in accessor_mut)), ("visit every direct parent", lambda t: (t.callee.res or "").endswith("::all_grandparents") or t.callee.res in cache_writers)])
+            check_required_steps(ck, "ROLE", prog, wb_, [("write the cache", lambda t: any(t.callee.res == a.id for a in accessor_mut)), ("visit every direct parent", lambda t: to_writer(t))])
 
     # ------------------------------------------------------------------ PHASE: every direct parent contributes its closure
     # (a `continue` / guard that skips the accumulation for some parents - "redundant edge" shortcuts - loses ancestors)
@@ -516,11 +528,23 @@ def run(ck, prog, ctx):
             fr = field_names(pv.of_operand(b, t.args[0]), "::HpoTerm")
             if "all_parents" in fr:
                 closure_tests.append((bi, t))
+        # `self.child_of(other)` / `other.parent_of(self)` is the same test (child_of itself is decided by FIELD/child_of)
+        via_pred = {}
+        for bi, t in b.calls():
+            if co is not None and t.callee.res == co.id and len(t.args) == 2:
+                via_pred[bi] = (params_of(pvn.of_operand(b, t.args[0]), b.id), params_of(pvn.of_operand(b, t.args[1]), b.id))
+                closure_tests.append((bi, t))
+            elif po is not None and t.callee.res == po.id and len(t.args) == 2:
+                via_pred[bi] = (params_of(pvn.of_operand(b, t.args[1]), b.id), params_of(pvn.of_operand(b, t.args[0]), b.id))
+                closure_tests.append((bi, t))
         if not closure_tests:
             ck.ob("FIELD", nm + "/prune", False, "%s has no pruning test on the closure set: unrelated terms are searched / reported" % nm, where=b.where())
         for bi, t in closure_tests:
             k = pv.of_operand(b, t.args[1])
-            ok = params_of(pv.of_operand(b, t.args[0]), b.id) == {1} and params_of(k, b.id) == {2} and "id" in field_names(k, "::HpoTerm")
+            if bi in via_pred:
+                ok = via_pred[bi] == ({1}, {2})
+            else:
+                ok = params_of(pv.of_operand(b, t.args[0]), b.id) == {1} and params_of(k, b.id) == {2} and "id" in field_names(k, "::HpoTerm")
             # the negative edge returns None
             pe = positive_edges(b, pvn, bi)
             none_on_neg = False
